@@ -91,6 +91,8 @@ class Ctx:
         self.level = "model_checking"
         self.vh = {}
         kf = json.load(open(os.path.join(root, "known_findings.json")))
+        if os.environ.get("VERIF_KF_EXTRA"):   # development aid only: try proposed entries before they are committed
+            kf["findings"] += json.load(open(os.environ["VERIF_KF_EXTRA"]))["findings"]
         self.findings = [f for f in kf["findings"] if f["property"] == pid or pid in f.get("also_explains", [])]
         self.open_kf = {}      # deviation action name -> finding
         for f in self.findings:
@@ -121,7 +123,7 @@ class Ctx:
     def build_harness(self, module):
         if module in self.vh:
             return self.vh[module]
-        hdir = os.path.join(self.root, "harness")
+        hdir = os.environ.get("VERIF_HARNESS_DIR") or os.path.join(self.root, "harness")
         t = time.time()
         rc, out = sh(["cargo", "build", "--offline", "--bin", module], cwd=hdir, timeout=3600)
         if rc != 0:
@@ -147,7 +149,7 @@ class Ctx:
             f.write(text)
         return p
 
-    def tlc(self, module, cfg_text, name, workers=8, timeout=900, simulate=None, env=None, xmx="6g", extra=()):
+    def tlc(self, module, cfg_text, name, workers=int(os.environ.get("VERIF_WORKERS", "8")), timeout=900, simulate=None, env=None, xmx="6g", extra=()):
         """run TLC on spec/<module>.tla with the given cfg text; returns (rc, output)"""
         cfg = self.write_cfg(name + ".cfg", cfg_text)
         md = self.path("md-" + name)
@@ -163,7 +165,7 @@ class Ctx:
             f.write(out)
         return rc, out, time.time() - t
 
-    def tlc_gen(self, module, cfg_text, name, tag="SCRIPT", workers=8, timeout=900, simulate=None,
+    def tlc_gen(self, module, cfg_text, name, tag="SCRIPT", workers=int(os.environ.get("VERIF_WORKERS", "8")), timeout=900, simulate=None,
                 expect_violation=False, exhaustive=True, env=None):
         """model-check the design (invariants/properties of the cfg) and collect emitted scripts"""
         rc, out, dt = self.tlc(module, cfg_text, name, workers=workers, timeout=timeout, simulate=simulate, env=env)
@@ -225,7 +227,7 @@ class Ctx:
         with open(tp, "w") as f:
             f.write("".join(lines))
         env = {"TRACE": tp, "JAVA_TOOL_OPTIONS": "-Xss1g"}
-        rc, out, dt = self.tlc(module, cfg_text, name, workers=1, timeout=timeout, env=env, xmx="3g")
+        rc, out, dt = self.tlc(module, cfg_text, name, workers=1, timeout=timeout, env=env, xmx="2g")
         res = {"rc": rc, "out": out, "n": len(lines), "dt": dt, "used": {}, "reached": None, "invariant": None}
         for sid, body in RE_USED.findall(out):
             names = set(re.findall(r'"([^"]+)"', body))
@@ -244,7 +246,7 @@ class Ctx:
             res["timeout"] = True
         return res
 
-    def validate(self, module, cfg_text, trace_path, name=None, jobs=12, timeout=1200, max_fail=3, selftest=True,
+    def validate(self, module, cfg_text, trace_path, name=None, jobs=int(os.environ.get("VERIF_JOBS", "12")), timeout=1200, max_fail=3, selftest=True,
                  corrupt=None):
         """TLC trace validation of a recorded trace (many scripts separated by reset events).
         Returns list of failures; records violations and known-finding uses in the context."""
